@@ -1025,3 +1025,90 @@ SPECS["C11"]["level_note"] = SPECS["C11"]["level_note"].replace(
     "The HCOBS sink is checked by the harness oracle only (sink-agnosticism is a C02/C01 matter).",
     "The HCOBS sink is checked by the oracle, by correspondence (`wire` lines against the encoder model run on the model's calls) and by "
     "C11S.sink_agnostic (composition with the C01/C02 refinement theorems).")
+
+# ---- track hc3: statement-strength gaps of the HCOBS codec / stream-reader theorems (claim audit, TOP GAPS 9, 16, 19)
+# gap 9: "never panics" is an OUTCOME of the executable model (Model/HcobsP, Model/StreamP; the drivers run these), proved unreachable
+_HC3_DEC = [
+    "Woodpile.Props.C07P.dec_once_never_panics",
+    "Woodpile.Props.C07P.dec_call_never_panics",
+    "Woodpile.Props.C07P.dec_object_call_never_panics",
+    "Woodpile.Props.C07P.dec_session_never_panics",
+    "Woodpile.Props.C07P.dec_calls_reachable",
+    "Woodpile.Props.C07P.dec_after_error_is_fresh",
+    "Woodpile.Props.C07P.dec_calls_split",
+    "Woodpile.Props.C07P.dec_finish_after_error",
+    "Woodpile.Props.C07P.dec_failed_call_appends",
+    "Woodpile.Props.C07P.output_of_session",
+    "Woodpile.Props.C07P.dec_first_error_classified",
+    "Woodpile.Props.C07P.dec_output_until_error",
+    "Woodpile.Props.C07P.dec_failed_output_split_independent",
+]
+_HC3_ENC = [
+    "Woodpile.Props.C07P.enc_once_never_panics",
+    "Woodpile.Props.C07P.enc_call_never_panics",
+    "Woodpile.Props.C07P.enc_call_dreachable",
+    "Woodpile.Props.C07P.enc_finish_never_panics",
+    "Woodpile.Props.C07P.enc_run_never_panics",
+]
+_HC3_SEG = [
+    "Woodpile.Props.C08S.segments_sound",
+    "Woodpile.Props.C08S.segments_complete",
+    "Woodpile.Props.C08S.segments_tile",
+    "Woodpile.Props.C08S.segments_unique",
+]
+_HC3_PANIC_TEXT = (' Never panics (track hc3, Props/C07P): Model/HcobsP re-states consume_once / encode_header / write / copy / '
+    'write_partial_stuff_sequence / terminate / the encode_* loops and the four decoder state functions / InChunk::update / the decode_* loops '
+    'with a `panic file line` OUTCOME at every assert!, assert_eq!, unwrap(), slice index or range, and overflow-checked usize / u32 operation '
+    '(64-bit usize, NonZeroU32 remaining, `as u32` / `as u8` truncations), plus backfill_or_panic finding the placeholder; the model driver runs '
+    'these functions (a model panic prints `panic`, as the harness does for a real one). Kernel-checked: for every reachable state (incl. any '
+    'consumer drains in between), every input, every segmentation and method choice and every Params.Valid, xP = ok (x): the panic outcome is '
+    'unreachable and what runs is exactly the panic-free model the other theorems are about (enc_once/call/finish/run_never_panics, '
+    'dec_once/call/session_never_panics). Decoder object after an error (gap 19): Decoder::decode swaps Default::default() into self.state and '
+    'returns early on Err, so the object stays usable in InitialState over the same iovec (output pushed before the error stays, incl. the stuff '
+    'sequence BeforeChunk::decode pushes before validating the header byte); Dec.call / calls / session model exactly that, model driver and '
+    'harness continue a decoder run after an error, and dec_after_error_is_fresh / dec_calls_split / dec_finish_after_error (CutShort) / '
+    'output_of_session (the convention "first Err is the verdict" of Dec.output is derived from the session) are proved; the harness oracle judges '
+    'the input fed since the last error against a reference decoder and a fresh real decoder.')
+for _pid in ("C01", "C07"):
+    SPECS[_pid]["lean_modules"] += ["Woodpile.Props.C07P"]
+    SPECS[_pid]["theorems"] += _HC3_DEC + _HC3_ENC
+    SPECS[_pid]["level_text"] += _HC3_PANIC_TEXT
+SPECS["C02"]["lean_modules"] += ["Woodpile.Props.C07P"]
+SPECS["C02"]["theorems"] += _HC3_DEC + _HC3_ENC
+
+# gap 16 + the reader's share of gap 9 (C06); segments characterised (C06, C08)
+SPECS["C06"]["lean_modules"] += ["Woodpile.Props.C07P", "Woodpile.Props.C08S"]
+SPECS["C06"]["theorems"] += _HC3_DEC + _HC3_ENC + _HC3_SEG + [
+    "Woodpile.Props.C06U.reader_never_trips_decoder",
+    "Woodpile.Props.C06U.reader_feeds_reachable_states",
+    "Woodpile.Props.C06U.reader_keepgoing_blocks",
+    "Woodpile.Props.C06U.reader_std_judge_blocks",
+    "Woodpile.Props.C06U.blocks_constant",
+    "Woodpile.Props.C06U.resync_std",
+    "Woodpile.Props.C06U.resync_keepgoing",
+    "Woodpile.Props.C06U.placed_shapes",
+]
+SPECS["C06"]["level_text"] += (' Track hc3 (Props/C06U, C08S, C07P): (1) "without panicking" includes the embedded decoder: the model driver runs nextP = '
+    'next_record_bytes over the panic-aware decoder of Model/HcobsP (every assert / unwrap / index / checked arithmetic of decoder.rs is a panic outcome '
+    'that makes the call return panic); reader_never_trips_decoder proves nextP = next from every reader state, because every decoder state the reader '
+    'feeds is DecProof.Reachable (reader_feeds_reachable_states). (2) io_block_size is an argument of next_record_bytes and may change between calls: '
+    'reader_keepgoing_blocks / reader_std_judge_blocks give the same result lists for one block size PER CALL. (3) segments is characterised without '
+    'reference to the scan: sound (exact range, FE FD-free, delimited by stuff sequences or stream start/end), complete, tiling, and unique (any '
+    'decomposition of the stream into FE FD-free pieces joined by FE FD is segments: the pieces are maximal). (4) Resynchronisation is stated with the '
+    'encoder: wherever Spec.encode prod d sits (a FE FD . FE FD b / . FE FD b / a FE FD . / alone; a, b arbitrary), with |d| <= max and start before the '
+    'limit, one of the first |segments| calls returns exactly (d, start .. start+|encoding|), for the standard judge (resync_std) and the always-KeepGoing '
+    'judge (resync_keepgoing), any read schedule, any block size per call. One judge per run remains (a judge that changes between calls is exercised by '
+    'correspondence only).')
+# target 4: SplitIndep prod is discharged (C06U.split_indep_prod), not trusted
+SPECS["C06"]["level_note"] = SPECS["C06"]["level_note"].replace(
+    "the SplitIndep hypothesis until the coordinator discharges it from the decoder refinement theorem.",
+    "the SplitIndep hypothesis of Props/C06 is discharged unconditionally by C06U.split_indep_prod (from C01.dec_impl_refines_spec); "
+    "the headline theorems are the unconditional ones of Props/C06U.")
+SPECS["C06"]["trusted_base"] = ["std::io::Read::chain semantics"]
+
+SPECS["C08"]["lean_modules"] += ["Woodpile.Props.C08S"]
+SPECS["C08"]["theorems"] += _HC3_SEG
+SPECS["C08"]["level_text"] += (' Track hc3 (Props/C08S): the specification function segments, to which the chunks regroup, is itself characterised: every segment '
+    'is an FE FD-free piece at exactly its range delimited by stuff sequences or the stream start/end (segments_sound), every such piece is a segment '
+    '(segments_complete), the segments joined by FE FD are the stream with consecutive ranges (segments_tile), and the decomposition is unique, i.e. the '
+    'pieces are maximal (segments_unique).')
